@@ -19,3 +19,25 @@ def run(ctx):
     translate_prune.check(ctx)       # pruning.py's literal elision translated to Gallina and linked to Cache/Prune.v by a theorem
     prune_corr.run_prune(ctx)       # real prune_plan / prune_source_literals vs Cache/Prune.v (exact node order + keyed edges)
     queues_corr.run_queues(ctx)     # real RandomQueue / PriorityQueue / deque op sequences vs Engine/Queues.v
+    gather_temporaries(ctx)
+
+
+def gather_temporaries(ctx):
+    """plan.gather() of short-lived structures (the interpreter reuses their addresses): each gather node is its own node and a
+    run executes exactly what the requested one needs"""
+    uj = core.use_repo()
+    for workers in (1, 3):
+        executed = []
+        plan = uj.Plan()
+        calls = {n: plan.call(lambda n=n: (executed.append(n), n)[1]) for n in "abcdef"}
+        g1 = plan.gather([calls["a"], calls["b"]])
+        g2 = plan.gather([calls["c"], calls["d"]])
+        g3 = plan.gather({"k": calls["e"]})
+        g4 = plan.gather((calls["f"], 1))
+        for out, want, val in ((g2, ["c", "d"], ["c", "d"]), (g3, ["e"], {"k": "e"}), (g1, ["a", "b"], ["a", "b"]), (g4, ["f"], ("f", 1))):
+            del executed[:]
+            got = uj.run(plan, output=out, max_workers=workers, progress=None)
+            ctx.case(("gather-temporaries", workers, tuple(want)))
+            if sorted(executed) != want or got != val:
+                ctx.fail("gather-temporaries", "plan.gather of short-lived structures: run(output=<gather of %r>) executed %r and returned %r" % (want, sorted(executed), got),
+                         {"max_workers": workers, "wanted": want})
